@@ -122,6 +122,26 @@ def _ctrl_dep_params(fn, blocks, deps):
     return out
 
 
+def sign_param(prog, fn):
+    """the sign parameter by role: parse_number's only bool parameter; for parse_float the parameter that
+    receives it at the call from parse_number"""
+    pn = prog.fns.get("sonic_number::parse_number")
+    if pn is None:
+        return None
+    bools = [i for i in range(1, pn.argc + 1) if pn.locals[i]["ty"] == "bool"]
+    if len(bools) != 1:
+        return None
+    if fn.id == pn.id:
+        return bools[0]
+    for b, t in pn.calls():
+        if t.get("callee") == fn.id:
+            for i, a in enumerate(t["args"]):
+                l = op_local(a)
+                if l is not None and pn.src(l) == ("param", bools[0]):
+                    return i + 1
+    return None
+
+
 def r07_3(ctx):
     prog = ctx.prog()
     n = 0
@@ -130,11 +150,10 @@ def r07_3(ctx):
         if fn is None:
             ctx.fail_closed("R07.3", fname)
             continue
-        neg = [i for i in range(1, fn.argc + 1) if fn.locals[i].get("name") == "negative"]
-        if not neg:
-            ctx.fail_closed("R07.3", f"{fname}: parameter `negative`")
+        neg = sign_param(prog, fn)
+        if neg is None:
+            ctx.fail_closed("R07.3", f"{fname}: sign parameter")
             continue
-        neg = neg[0]
         deps = control_deps(fn)
         k = 0
         for b, i, s in fn.assigns():
@@ -187,7 +206,7 @@ def r07_3(ctx):
     fn = prog.fns.get("sonic_number::parse_number")
     if fn:
         deps = control_deps(fn)
-        neg = [i for i in range(1, fn.argc + 1) if fn.locals[i].get("name") == "negative"][0]
+        neg = sign_param(prog, fn)
         for b, i, s in fn.assigns():
             rv = s["rv"]
             if rv["k"] == "agg" and rv.get("variant") in ("Signed", "Unsigned") and "ParserNumber" in rv.get("adt", ""):
